@@ -12,11 +12,14 @@ def run(ck, progs):
                      "starts at the restored checkpoint's position and re-dispatches the history entries' own fields; only do_rollback runs the stages")
     ck.rule("C01.2", "the index handed to do_rollback is 0 or one past a processed (untagged) history entry that is not after the straggler: "
                      "never one that leaves an undone event's sends uncancelled")
+    ck.rule("C01.5", "the lazy `bound` pre-filter of the straggler test is implied by the comparator: it is non-strict, and every writer keeps "
+                     "bound >= the timestamp of the newest history entry (lowered only when the history is empty)")
     ck.rule("C01.3", "history discipline: six writers; the processed event is appended untagged after its handler; sent messages are recorded tagged")
     ck.rule("C01.4", "silent re-execution cannot emit (C05.1) and straggler detection / matching use the one canonical order (C16.3)")
     for cfg, P in progs.items():
         R.check_pipeline(ck, P, "C01.1")
         rules_index.check_rollback_index(ck, P, "C01.2")
+        rules_index.check_bound_prefilter(ck, P, "C01.5")
         R.check_history_discipline(ck, P, "C01.3")
         R.check_silent(ck, P, "C01.4")
         rules_cmp.check_uses(ck, P, "C01.4")
